@@ -33,7 +33,7 @@ ASSUMPTIONS = ["reference physical-address translation = TMRh20 RF24Network::pip
                "chip model: RX session = PWR_UP, PRIM_RX, CE high, settled or busy with an auto-ACK"]
 CLAUSES = {"listening": "powered up in receive mode with CE high, six pipes on the node's own addresses, auto-ack 0x3E, dynamic payloads on",
            "hears": "never deaf to its parent, children or multicasts"}
-PROBES = ["max_rt", "mcu_restart"]
+PROBES = ["max_rt", "mcu_restart", "radio_power_cycled_by_application"]
 SHRINK_KEYS = ("ops", "faults")
 CHUNK = 6
 MAX_INCONCLUSIVE = 0.03
@@ -104,7 +104,7 @@ def make(i, base_seed, tier):
                 ops.append({"node": who, "op": "restart"})
             elif o < 0.96:
                 # radio attributes the network classes pass through; none of them may take the node out of RX mode
-                ops.append({"node": who, "op": "radio_cfg", "what": rng.choice(["interrupt_config", "pa_level", "channel_same", "getters", "power_off", "listen_off"]),
+                ops.append({"node": who, "op": "radio_cfg", "what": rng.choice(["interrupt_config", "pa_level", "channel_same", "getters", "power_off", "listen_off", "power_cycle"]),
                             "args": [rng.random() < 0.5 for _ in range(3)]})
                 if ops[-1]["what"] in ("power_off", "listen_off") and rng.random() < 0.8:
                     # the application put the radio to sleep / took it out of RX mode itself; its next transmitting call has to
@@ -285,6 +285,15 @@ def _run_net(scn, w, net, res):
                     node.pa_level = -12
                 elif op["what"] == "channel_same":
                     node.channel = node.channel
+                elif op["what"] == "power_cycle":
+                    # the application puts the radio to sleep for a while and wakes it up again: awake, the node is owed to be listening
+                    # from its next network call on (nothing but the PWR_UP bit was touched)
+                    import circuitpython_nrf24l01.rf24 as rm_
+                    node.power = False
+                    rm_.time.sleep(0.003)
+                    node.power = True
+                    rm_.time.sleep(0.002)
+                    sim.count("radio_power_cycled_by_application")
                 elif op["what"] in ("power_off", "listen_off"):
                     nc_ = net.nodes[op["node"]]
                     nc_.user_off, nc_.cyc_at_off = True, len(nc_.radio.cycles)
